@@ -18,6 +18,27 @@ struct ChildIo {
 
 thread_local! {
     static IO: RefCell<Option<ChildIo>> = const { RefCell::new(None) };
+    /// "Can this simulated process allocate n more bytes right now?"
+    static ALLOC_PROBE: RefCell<Option<Box<dyn Fn(usize) -> bool>>> = const { RefCell::new(None) };
+}
+
+/// Installed by the program a simulated process runs: how the process's own
+/// memory limit answers a request for `n` more bytes.
+pub fn set_alloc_probe(probe: Option<Box<dyn Fn(usize) -> bool>>) {
+    ALLOC_PROBE.with(|p| *p.borrow_mut() = probe);
+}
+
+/// Hook called from the child-side framing (`frame.rs`, cfg-guarded): in a real
+/// child these allocations go through the limited global allocator, and when
+/// one fails the process aborts (`handle_alloc_error`).
+pub fn alloc_point(n: usize) {
+    let ok = ALLOC_PROBE.with(|p| p.borrow().as_ref().map(|f| f(n)).unwrap_or(true));
+    if !ok {
+        if let Some(c) = cur() {
+            c.world.stat("child_out_of_memory_in_framing");
+        }
+        abort();
+    }
 }
 
 pub(crate) fn thread_setup(world: &Arc<World>, stdin_pipe: usize, stdout_pipe: usize) {
@@ -40,6 +61,7 @@ pub(crate) fn thread_teardown() {
     // flushed by exit()), aborted or was killed, nothing more may reach the
     // pipe from here, so the ends are switched to "discard" first.
     crate::world::set_discard_io(true);
+    set_alloc_probe(None);
     let io = IO.with(|c| c.borrow_mut().take());
     drop(io);
     crate::world::set_discard_io(false);
